@@ -317,4 +317,14 @@ def marksOf : List QItem → Nat
   | .item _ _ :: q => marksOf q
   | .mark :: q => marksOf q + 1
 
+/-- the value multiset of a log -/
+def vals (l : List (Nat × Nat)) : List Nat := l.map Prod.snd
+
+/-- the state in which a round starts: everything as in `init` except clock, stop flag, round
+    number and the history of finished rounds -/
+def Fresh (c : Cfg) (s : State) : Prop :=
+  s.sups = List.replicate c.m freshSup ∧ s.cons = List.replicate c.n freshCon ∧ s.queue = [] ∧
+  s.spare = c.m ∧ s.applied = 0 ∧ s.used = 0 ∧ s.lock = false ∧ s.rpc = .off ∧ s.extraOut = false ∧
+  s.putLog = [] ∧ s.gotLog = []
+
 end IterQueue
